@@ -626,3 +626,18 @@ FIRING += [
      "        for i in range(first_minute, len(short_timeframes_candles)):\n            current_temp_candle = short_timeframes_candles[i].copy()\n            if i > 0:",
      ["C12"]),
 ]
+
+# ---- C15-R6 / R7: ranges, orderings, homogeneity (indicators outside the definition tables)
+FIRING += [
+    ("r6-ultosc-weights-over-6", "jesse/indicators/ultosc.py", "    ult = 100 * (4 * avg1 + 2 * avg2 + avg3) / 7", "    ult = 100 * (4 * avg1 + 2 * avg2 + avg3) / 6", ["C15"]),
+    ("r6-cmo-denominator-gains-only", "jesse/indicators/cmo.py", "                result[i] = 100.0 * (pos_sum - neg_sum) / denom",
+     "                result[i] = 100.0 * (pos_sum - neg_sum) / max(pos_sum, 1e-12)", ["C15"]),
+    ("r6-aroon-window-off-by-one", "jesse/indicators/aroon.py", "            aroon_up[period:] = 100 * (np.argmax(windows_high, axis=1) / period)",
+     "            aroon_up[period:] = 100 * (np.argmax(windows_high, axis=1) / (period - 1))", ["C15"]),
+    ("r7-swma-offset", "jesse/indicators/swma.py", "    res = np.average(swv, weights=triangle, axis=-1)", "    res = np.average(swv, weights=triangle, axis=-1) + 0.5", ["C15"]),
+]
+SILENT += [
+    ("r6-ultosc-rearranged", "jesse/indicators/ultosc.py", "    ult = 100 * (4 * avg1 + 2 * avg2 + avg3) / 7", "    ult = (400 * avg1 + 200 * avg2 + 100 * avg3) / 7.0", ["C15"]),
+    ("r6-cmo-rearranged", "jesse/indicators/cmo.py", "                result[i] = 100.0 * (pos_sum - neg_sum) / denom",
+     "                result[i] = (pos_sum - neg_sum) / denom * 100.0", ["C15"]),
+]
